@@ -10,7 +10,6 @@ use crate::{
     error::SubstreamError,
     protocol::{
         connection::{ConnectionHandle, Permit},
-        protocol_set::{InnerTransportEvent, ProtocolCommand},
         transport_service::{SubstreamKeepAlive, TransportService},
         Direction, TransportEvent,
     },
@@ -318,3 +317,7 @@ fn dead_yamux_stream() -> tokio_util::compat::Compat<crate::yamux::Stream> {
         _ => panic!("verif: yamux did not hand out a stream"),
     }
 }
+
+// Re-exports of the crate-private per-connection protocol set and the event types it sends.
+pub use super::protocol_set::{InnerTransportEvent, ProtocolCommand, ProtocolSet};
+pub use crate::transport::manager::{ProtocolContext, TransportManagerEvent};
